@@ -59,11 +59,15 @@ fn gen_case(rng: &mut Rng, base: u64) -> Case {
             *rng.pick(&[1u32, 1, 1, 2, 4]),
         ));
     }
-    let nrules = rng.range(1, 3);
+    // one case in three has several rules on the SAME metric (different strategies / thresholds):
+    // each of them must be enforced, not only the strictest
+    let same_metric = rng.chance(1, 3);
+    let nrules = if same_metric { rng.range(2, 4) } else { rng.range(1, 3) };
+    let fav = rng.below(5) as u8;
     let mut rules: Vec<RuleSpec> = vec![];
     while (rules.len() as u64) < nrules {
-        let metric = rng.below(5) as u8;
-        if rules.iter().any(|r| r.metric == metric) {
+        let metric = if same_metric && rng.chance(2, 3) { fav } else { rng.below(5) as u8 };
+        if !same_metric && rules.iter().any(|r| r.metric == metric) {
             continue;
         }
         rules.push(RuleSpec {
